@@ -1,6 +1,7 @@
 import IxpeVerif.RealInst
 import IxpeVerif.Model.Sampler
 import IxpeVerif.Lemmas.Interp
+import IxpeVerif.Lemmas.SamplerTie
 /-!
 # C15 — tabulated-pdf samplers invert their own cumulative distribution (k = 1)
 
@@ -210,6 +211,64 @@ theorem zero_stretch_fails : ppf gapPdf (11/20) = 11/2 ∧ (4 : ℝ) < 11/2 ∧ 
   simp only [ppf, gap_nodes, Sampler.interp, Sampler.seg]
   rl_simp
   norm_num
+
+/-! ### T-tie: `build_cdf`, `build_ppf` (core/spline.py) and `rvs_bounded` (core/rand.py) regenerated from the source (`Gen/ImpR.lean`) -/
+
+/-- the quantile function the generated code builds: linear interpolation through the nodes `build_ppf` returns, the integrals of the density being
+the cumulative trapezoids of the k = 1 spline -/
+def genPpf (nodes : List (ℝ × ℝ)) (u : ℝ) : ℝ :=
+  Sampler.interp (List.zip (Gen.ImpR.build_ppf (nodes.map (·.1)) (cumTrap 0.0 nodes)).1 (Gen.ImpR.build_ppf (nodes.map (·.1)) (cumTrap 0.0 nodes)).2) u
+/-- the cumulative function the generated code builds -/
+def genCdf (nodes : List (ℝ × ℝ)) (x : ℝ) : ℝ :=
+  Sampler.interp (List.zip (Gen.ImpR.build_cdf (nodes.map (·.1)) (cumTrap 0.0 nodes)).1 (Gen.ImpR.build_cdf (nodes.map (·.1)) (cumTrap 0.0 nodes)).2) x
+
+theorem gen_build_ppf_eq_model (nodes : List (ℝ × ℝ)) (ht : total (cumTrap 0.0 nodes) ≠ 0) :
+    List.zip (Gen.ImpR.build_ppf (nodes.map (·.1)) (cumTrap 0.0 nodes)).1 (Gen.ImpR.build_ppf (nodes.map (·.1)) (cumTrap 0.0 nodes)).2 = ppfNodes nodes :=
+  SamplerTie.gen_build_ppf_eq_model nodes ht
+
+theorem gen_build_cdf_eq_model (nodes : List (ℝ × ℝ)) (hne : nodes ≠ []) :
+    List.zip (Gen.ImpR.build_cdf (nodes.map (·.1)) (cumTrap 0.0 nodes)).1 (Gen.ImpR.build_cdf (nodes.map (·.1)) (cumTrap 0.0 nodes)).2 = cdfNodes nodes :=
+  SamplerTie.gen_build_cdf_eq_model nodes hne
+
+theorem genPpf_eq (nodes : List (ℝ × ℝ)) (ht : total (cumTrap 0.0 nodes) ≠ 0) (u : ℝ) : genPpf nodes u = ppf nodes u := by
+  unfold genPpf ppf; rw [SamplerTie.gen_build_ppf_eq_model nodes ht]
+
+theorem genCdf_eq (nodes : List (ℝ × ℝ)) (hne : nodes ≠ []) (x : ℝ) : genCdf nodes x = cdf nodes x := by
+  unfold genCdf cdf; rw [SamplerTie.gen_build_cdf_eq_model nodes hne]
+
+/-- **the quantile function composes with the cumulative function to the identity, on the current source** -/
+theorem gen_cdf_ppf_id (nodes : List (ℝ × ℝ)) (u : ℝ) (ht : total (cumTrap 0.0 nodes) ≠ 0) (hn : nodes ≠ [])
+    (hs : Interp.StrictChain (Z nodes)) (hne : Z nodes ≠ [])
+    (h0 : ∀ p, (Z nodes).head? = some p → p.1 ≤ u) (h1 : ∀ p, (Z nodes).getLast? = some p → u ≤ p.1) :
+    genCdf nodes (genPpf nodes u) = u := by
+  rw [genPpf_eq nodes ht, genCdf_eq nodes hn]; exact cdf_ppf_id nodes u hs hne h0 h1
+
+theorem gen_ppf_cdf_id (nodes : List (ℝ × ℝ)) (x : ℝ) (ht : total (cumTrap 0.0 nodes) ≠ 0) (hn : nodes ≠ [])
+    (hs : Interp.StrictChain (Z nodes)) (hne : Z nodes ≠ [])
+    (h0 : ∀ p, (Z nodes).head? = some p → p.2 ≤ x) (h1 : ∀ p, (Z nodes).getLast? = some p → x ≤ p.2) :
+    genPpf nodes (genCdf nodes x) = x := by
+  rw [genCdf_eq nodes hn, genPpf_eq nodes ht]; exact ppf_cdf_id nodes x hs hne h0 h1
+
+/-- **the generated quantile function is non-decreasing** -/
+theorem gen_ppf_mono (nodes : List (ℝ × ℝ)) (ht : total (cumTrap 0.0 nodes) ≠ 0) (hs : Interp.StrictChain (Z nodes)) (u u' : ℝ) (h : u ≤ u')
+    (h0 : ∀ p, (Z nodes).head? = some p → p.1 ≤ u) : genPpf nodes u ≤ genPpf nodes u' := by
+  rw [genPpf_eq nodes ht, genPpf_eq nodes ht]; exact ppf_mono nodes hs u u' h h0
+
+/-- **bounded sampling, on the current source**: the generated `rvs_bounded`, run with the generated cumulative and quantile functions, evaluates the
+quantile function at the bounded variate of the model — so, for bounds inside the support, the value lies between the bounds -/
+theorem gen_rvs_bounded_eq_model (nodes : List (ℝ × ℝ)) (rvmin rvmax : Option ℝ) (u : ℝ) :
+    Gen.ImpR.rvs_bounded (cdf nodes) (ppf nodes) rvmin rvmax u = ppf nodes (boundedU nodes rvmin rvmax u) :=
+  SamplerTie.gen_rvs_bounded_eq_model nodes rvmin rvmax u
+
+theorem gen_bounded_in_bounds (nodes : List (ℝ × ℝ)) (hs : Interp.StrictChain (Z nodes)) (hne : Z nodes ≠ []) (lo hi u : ℝ)
+    (hlo0 : ∀ p, (Z nodes).head? = some p → p.2 ≤ lo) (hlo1 : ∀ p, (Z nodes).getLast? = some p → lo ≤ p.2)
+    (hhi0 : ∀ p, (Z nodes).head? = some p → p.2 ≤ hi) (hhi1 : ∀ p, (Z nodes).getLast? = some p → hi ≤ p.2)
+    (hq0 : ∀ p, (Z nodes).head? = some p → p.1 ≤ cdf nodes lo) (hle : cdf nodes lo ≤ cdf nodes hi) (hu0 : 0 ≤ u) (hu1 : u ≤ 1) :
+    lo ≤ Gen.ImpR.rvs_bounded (cdf nodes) (ppf nodes) (some lo) (some hi) u ∧ Gen.ImpR.rvs_bounded (cdf nodes) (ppf nodes) (some lo) (some hi) u ≤ hi := by
+  rw [gen_rvs_bounded_eq_model]
+  apply bounded_in_bounds nodes hs hne lo hi _ hlo0 hlo1 hhi0 hhi1 hq0
+  · simp only [boundedU]; rl_simp; nlinarith
+  · simp only [boundedU]; rl_simp; nlinarith
 
 end C15
 end
